@@ -376,6 +376,101 @@ func init() {
 				},
 			},
 			{
+				// one builder object reused for a series of requests, each changing ONE setter: every Build must equal
+				// what a fresh builder returns for the same full request ("a function of the request alone")
+				Name: "reusedbuilder", N: q(6000, 400000),
+				Run: func(c *fw.Case) {
+					r := c.R
+					b := genBatchReq(r)
+					if len(b.content) > 3000 {
+						b.content = b.content[:validPrefix(b.content, 600)]
+					}
+					mkList := func(b *batchReq) []datacoding.ProtocolDataCoding {
+						l := make([]datacoding.ProtocolDataCoding, len(b.cands))
+						for i, n := range b.cands {
+							l[i] = mkCoding(b.proto, n)
+						}
+						return l
+					}
+					build := func(enc *protocol.BatchDataCodingEncoder) *batchOut {
+						o := &batchOut{coding: -1}
+						if p, val, st := fw.Try(func() {
+							var f datacoding.ProtocolDataCoding
+							o.parts, f, o.err = enc.Build(context.Background())
+							switch x := f.(type) {
+							case datacoding.CMPPDataCoding:
+								o.coding = int(x)
+							case datacoding.SMPPDataCoding:
+								o.coding = int(x)
+							}
+						}); p {
+							o.psig, o.ptext = fw.PanicSig(val, st), fmt.Sprintf("%v\n%s", val, st)
+						}
+						c.Evals(1)
+						return o
+					}
+					fresh := func(b *batchReq) *batchOut {
+						enc := protocol.NewBatchDataCodingEncoder().Protocol(protocol.Protocol(b.proto)).Content(b.content, b.ref).DataCodings(mkList(b))
+						if b.origin != -1000 {
+							enc = enc.OriginDataCoding(mkCoding(b.proto, b.origin))
+						}
+						return build(enc)
+					}
+					reused := protocol.NewBatchDataCodingEncoder().Protocol(protocol.Protocol(b.proto)).Content(b.content, b.ref).DataCodings(mkList(b))
+					if b.origin != -1000 {
+						reused.OriginDataCoding(mkCoding(b.proto, b.origin))
+					}
+					steps := ""
+					for step := 0; step < 6; step++ {
+						got, want := build(reused), fresh(b)
+						if !sameOut(got, want) {
+							c.Failf("reused-builder-differs/"+b.proto, "after the setter sequence [%s] the reused builder returns coding %d, %d parts, first part %s, err=%v; a fresh builder for the same request returns coding %d, %d parts, first part %s, err=%v\n%s",
+								steps, got.coding, len(got.parts), hx(firstPart(got.parts)), got.err, want.coding, len(want.parts), hx(firstPart(want.parts)), want.err, b.String())
+							return
+						}
+						// change exactly one aspect of the request through its setter
+						valid := []int{0, 1, 3, 8, 99}
+						if b.proto == "CMPP" {
+							valid = []int{0, 8, 9, 15}
+						}
+						switch r.Intn(4) {
+						case 0: // reference byte only
+							b.ref = byte(r.U32())
+							reused.Content(b.content, b.ref)
+							steps += "Content(same text, new ref) "
+						case 1: // original coding only
+							b.origin = valid[r.Intn(len(valid))]
+							reused.OriginDataCoding(mkCoding(b.proto, b.origin))
+							steps += fmt.Sprintf("OriginDataCoding(%d) ", b.origin)
+						case 2: // candidate list only
+							b.cands = nil
+							for _, n := range valid {
+								if r.Bool() {
+									b.cands = append(b.cands, n)
+								}
+							}
+							if len(b.cands) == 0 {
+								b.cands = []int{valid[r.Intn(len(valid))]}
+							}
+							reused.DataCodings(mkList(b))
+							steps += fmt.Sprintf("DataCodings(%v) ", b.cands)
+						default: // text only
+							kinds := []codingKind{kASCII, kLatin1, kUCS2, kGB, kGSMUnpacked, kGSMPacked}
+							b.content, _ = boundaryText(r, kinds[r.Intn(len(kinds))])
+							if len(b.content) > 3000 {
+								b.content = b.content[:validPrefix(b.content, 600)]
+							}
+							if b.content == "" {
+								b.content = "z"
+							}
+							reused.Content(b.content, b.ref)
+							steps += "Content(new text, same ref) "
+						}
+					}
+					c.Cover("reusedbuilder/" + b.proto)
+				},
+			},
+			{
 				Name: "comparator", Exhaustive: "all (coding, parts 1..4) pairs and triples of each protocol: irreflexive, asymmetric, transitive, total",
 				N: func(fw.Tier) uint64 { return 2 },
 				Run: func(c *fw.Case) {
